@@ -685,14 +685,24 @@ fn run_program(
                 stack.push(span.entered());
             }
             "exit" => {
-                stack.pop();
+                // (a span whose extensions lock was poisoned must still be exitable: a panic here is reported)
+                let r = catch_unwind(AssertUnwindSafe(|| {
+                    stack.pop();
+                }));
+                if r.is_err() {
+                    caught.lock().unwrap().push(json!([t, k, "exit"]));
+                }
             }
             "record" => {
                 if let Some(top) = stack.last() {
                     let v = val(&op["v"], callsites);
                     let b = to_value(&v);
                     if let Some(b) = b.as_deref() {
-                        top.record(op["f"].as_str().unwrap(), b);
+                        // the value's Debug impl may panic ({"panic":..}): the caller catches it, as around an event
+                        let r = catch_unwind(AssertUnwindSafe(|| top.record(op["f"].as_str().unwrap(), b)));
+                        if r.is_err() {
+                            caught.lock().unwrap().push(json!([t, k, "record"]));
+                        }
                     };
                 }
             }
